@@ -365,10 +365,17 @@ def bodyW (cfg : Config) (w : World) (src : ClassSrc) : World :=
   { w with wrappers := (resolveFields cfg w.wrappers src.fields).1,
            srCounter := w.srCounter + totalInlines src.fields }
 
+/-- every class a field refers to exists (otherwise the source is not a program: NameError) -/
+def refsDefined (classes : List (ClassId × Entry)) (fs : List FieldSpec) : Bool :=
+  fs.all fun f => match f.kind with
+    | .ref r => (alookup r classes).isSome
+    | _ => true
+
 def defineW (cfg : Config) (w : World) (c : ClassId) (src : ClassSrc) : World × Obs :=
   match alookup c w.classes with
   | some _ => (w, Obs.none)                       -- identities are never reused
   | none =>
+    if !refsDefined w.classes src.fields then (w, Obs.none) else
     match lookupParent w.classes src.parent with
     | none => (w, Obs.none)                       -- parent not defined: NameError before the body runs
     | some pe =>
